@@ -89,4 +89,16 @@ func init() {
 
 	// ---------------------------------------------------------------- mode T smoke
 	reg(&HarnessSpec{Prop: "T0", Name: "T0Pipeline", What: "validation of the native bridge: full front half on the basic skeleton for every slot choice", Bounds: "skeleton basic"})
+
+	// ---------------------------------------------------------------- C17 / C09 (mode T)
+	aT := "Go types are concrete: the skeleton package (/verif/skeletons) is type-checked natively by go/types on every path; go/types, go/ast, go/token objects are native values called through a reflection bridge; packages.Load is a stub that runs convergen's real ParseFile hook (interpreted) on every file of the skeleton and type-checks the result natively (go list/go/packages loading is environment)"
+	aSlots := "notation slots: each slot line of the skeleton setup file is instantiated from its menu (slots.json), every combination explored; the notation texts themselves are concrete"
+	reg(&HarnessSpec{Prop: "C17", Name: "C17Selection",
+		What:    "real NewParser+Parse (findConvergenEntries, parseMethods) + CreateFunctions on a file with four interfaces (one named Convergen, two sharing a method name), a marked struct and a marked interface in a sibling file, the doc comment of each interface arbitrary from its menu (no comment, :convergen, :convergen + other notation, ordinary text, :convergenX, text mentioning :convergen): selected = declared in the input file and (named Convergen or marked), in name order, each with its full method set; one function per method in order",
+		Bounds:  "skeleton sel; 5x3x3x3 doc-comment combinations", Assumes: []string{aT, aSlots}})
+	reg(&HarnessSpec{Prop: "C17", Name: "C17NoInterface",
+		What: "a file without converter interface is rejected although a sibling file declares a marked interface", Bounds: "skeleton nointf", Assumes: []string{aT, aSlots}})
+	reg(&HarnessSpec{Prop: "C09", Name: "C09Scoping",
+		What:    "real Parse on 2 interfaces x 2 methods with notation slots at both interfaces and at three methods, instantiated with ON/OFF spellings of each of the six toggle families and with :skip/:map/:conv/:literal lists on several methods: effective toggle of every method = interface default overridden by the method's own notations (reference fold written from the README); all other toggles at their defaults; per-method lists contain exactly the method's own notations (append-aliasing across by-value Options copies included); :skip observed through ShouldSkip under the method's effective case rule (a later :case overrides the rule a pattern was compiled under)",
+		Bounds:  "skeleton scope; 7 slots with 2..6 menu entries each x 6 toggle families (28800 combinations)", Assumes: []string{aT, aSlots}})
 }
